@@ -167,13 +167,9 @@ def answer (evs : List Event) (q : Query) : String :=
     let rows := groups.map (fun (k, es) =>
       hexOf (showKey k) ++ "=" ++ ";".intercalate (aggs.map (fun a => match evalAgg es a with | .num q => showRat q | .none => "none")))
     let rows := sortBy (fun a b => a ≤ b) rows
-    let aggField : Agg → Option String
-      | .count => none | .sum f => some f | .min f => some f | .max f => some f | .avg f => some f | .dc f => some f
-    let scls := (if aggs.any (fun a => match aggField a with | some f => !evs.any (fun e => (e.get f).isSome) | none => false)
-                  then ["measure-field-absent-from-dataset"] else []) ++
-                (if must.any (fun e => bys.any (fun b => (e.get b).isNone)) then ["by-field-sparse"] else []) ++
-                (if aggs.any (fun a => match aggField a with | some f => must.any (fun e => (e.get f).isNone) && must.any (fun e => (e.get f).isSome) | none => false)
-                  then ["measure-field-sparse"] else [])
+    -- `by-field-sparse` names the input class on which the comparison grants the empty-key group (lib/e2ecmp.py); it is
+    -- no longer a recorded deviation class, nor are measure-field-sparse / measure-field-absent-from-dataset (repaired)
+    let scls := if must.any (fun e => bys.any (fun b => (e.get b).isNone)) then ["by-field-sparse"] else []
     s!"kind=stats rows={",".intercalate rows} nmay={may.length} cls={",".intercalate (cls ++ scls)}"
   | _ => "kind=unsupported"
 
